@@ -492,6 +492,74 @@ def check_programs(h: Harness):
             h.seen(f"programs:{desc}:{kind}", nontrivial=made > 20)
 
 
+def check_redeclaration(h: Harness):
+    """weights are declared with a decorator on the class; a user who declares NEW weights on classes that a grammar was already
+    extracted from (a sweep over one production's weight, switching a production off) and extracts again gets the grammar of
+    the new declaration -- normalised, with the newly declared ratios"""
+    # (totals are powers of two, unweighted = 1: normalisation is exact)
+    cases = [([1, 2, None, 4], [5, 1, 2, 8]), ([0, None], [1, 1]), ([2, 2], [0, 4]), ([None, None, 1, None], [1, 2, 1, 4]), ([1, 1], [3, 1])]
+    for first, second in cases:
+        nodes = corpus_flat(first)
+        build_classes(nodes)
+        if run_extraction(h, nodes, "D", 2, tag=":before-redeclaration") is None:
+            continue
+        for n, w in zip(nodes[1:], second):
+            n.weight = w
+            weight(w)(n.cls)
+        run_extraction(h, nodes, "D", 2, tag=":weights-declared-again")
+    nodes = corpus_nested(True, [1, 3], 3)
+    build_classes(nodes)
+    if run_extraction(h, nodes, "D", 1, tag=":before-redeclaration") is not None:
+        for n, w in zip(nodes[1:], [2, 0, 4, 6]):
+            n.weight = w
+            weight(w)(n.cls)
+        run_extraction(h, nodes, "D", 2, tag=":weights-declared-again")
+
+
+def check_multiple_inheritance(h: Harness):
+    """a production that derives from TWO abstract types of the grammar (`class Call(Expr, Stmt)`): whichever rules the library
+    lists it under, the weights of every rule are non-negative, sum to one, keep the declared ratios, and extracting again changes
+    nothing"""
+    Root = type(fresh("Root"), (ABC,), {})
+    Expr = abstract(type(fresh("Expr"), (Root,), {}))
+    Stmt = abstract(type(fresh("Stmt"), (Root,), {}))
+    Lit = weight(3)(dataclasses.make_dataclass(fresh("Lit"), [("x", int)], bases=(Expr,)))
+    Call = weight(1)(dataclasses.make_dataclass(fresh("Call"), [("x", int)], bases=(Expr, Stmt)))
+    Skip = weight(2)(dataclasses.make_dataclass(fresh("Skip"), [("x", int)], bases=(Stmt,)))
+    Seq = dataclasses.make_dataclass(fresh("Seq"), [("a", Stmt)], bases=(Stmt,))
+    declared = {Lit: 3, Call: 1, Skip: 2, Seq: 1}
+    prev = None
+    for step in range(1, 4):
+        try:
+            g = extract_grammar([Lit, Call, Skip, Seq, Expr, Stmt], Root)
+        except Exception as e:  # noqa: BLE001
+            h.fail("extract_grammar", "raises", f"extraction #{step} of a grammar with a production of two abstract bases: {type(e).__name__}: {e}", ["multi", step])
+            return
+        gw = g.get_weights()
+        shown = {k.__name__: round(v, 6) for k, v in gw.items() if k in declared}
+        h.count("multiple-inheritance-extractions")
+        h.seen(f"multi-inheritance:{step}", nontrivial=True)
+        for rule, alts in g.alternatives.items():
+            prods = [a for a in alts if a in declared]
+            if len(prods) < 2 or rule is Root:
+                continue
+            total = sum(gw[a] for a in alts)
+            if abs(total - 1) > 1e-9 or any(gw[a] < 0 for a in alts):
+                h.fail("extract_grammar", "weights-not-normalised", f"extraction #{step}: the weights of rule {rule.__name__} -> {[a.__name__ for a in alts]} sum to "
+                       f"{total}: {shown}", ["multi", step])
+                return
+            for a in prods:
+                for b_ in prods:
+                    if abs(gw[a] * declared[b_] - gw[b_] * declared[a]) > 1e-9:
+                        h.fail("extract_grammar", "ratios-not-preserved", f"extraction #{step}: rule {rule.__name__}: {a.__name__}:{b_.__name__} declared "
+                               f"{declared[a]}:{declared[b_]}, extracted {gw[a]}:{gw[b_]} ({shown})", ["multi", step])
+                        return
+        if prev is not None and any(abs(prev[k] - shown[k]) > 1e-9 for k in shown):
+            h.fail("extract_grammar", "re-extraction-changes-weights", f"extraction #{step} changed the weights: {prev} -> {shown}", ["multi", step])
+            return
+        prev = shown
+
+
 # ----------------------------------------------------------------------------------------
 # corpus
 # ----------------------------------------------------------------------------------------
@@ -535,6 +603,8 @@ def run(h: Harness):
             check_stack(h, g, describe(nodes, []))
 
     check_programs(h)
+    check_redeclaration(h)
+    check_multiple_inheritance(h)
     # -- corpus
     full(corpus_flat([0, 1]), "D", 3)
     full(corpus_flat([0, None]), "D", 2)
